@@ -336,6 +336,29 @@ def ob_wellformed(relpath, fname):
         unused = [n for n in pn if n not in used and not re.search(r'%s\b[^\n]*not used' % re.escape(n), doc)]
         out.append(struct(base + '/every-parameter-used', not unused, 'named parameters never reaching the numerical layer: %s' % unused if unused else 'all %d named parameters reach the numerical layer' % len(pn), fn,
                           finding_key=base + '/unused-parameter'))
+        # selection coefficients are properties of a population for as long as it exists: in a model that names gamma / gamma<k> parameters, every
+        # integration step hands each population its own selection coefficient (an epoch integrated without it is a neutral epoch nobody asked for)
+        gnames = [n for n in pn if re.fullmatch(r'gamma\d*', n)]
+        if gnames:
+            missing = []
+            for pi_, p in enumerate(paths):
+                def visit(t, _pi=pi_):
+                    if isinstance(t, Tm) and re.fullmatch(r'call:dadi\.Integration\.(one_pop|two_pops|three_pops|four_pops|five_pops)', t.op or ''):
+                        d_ = MA.argdict(t)
+                        K_ = {'one_pop': 1, 'two_pops': 2, 'three_pops': 3, 'four_pops': 4, 'five_pops': 5}[t.op.rsplit('.', 1)[1]]
+                        for k_ in range(1, K_ + 1):
+                            arg = 'gamma' if K_ == 1 else 'gamma%d' % k_
+                            want = arg if arg in gnames else ('gamma%d' % k_ if 'gamma%d' % k_ in gnames else ('gamma' if 'gamma' in gnames else None))
+                            if want is None:
+                                continue
+                            acc = set()
+                            if arg in d_:
+                                _scan(d_[arg], acc, set())
+                            if want not in acc:
+                                missing.append('path %d: %s(... %s=%s) does not carry %s' % (_pi, t.op.rsplit('.', 1)[1], arg, vrepr(d_.get(arg, 'absent'))[:40], want))
+                MA.walk(p.value, visit)
+            out.append(struct(base + '/selection-in-every-epoch', not missing, 'every integration step passes each population its selection coefficient' if not missing else '; '.join(missing[:3]), fn,
+                              finding_key=base + '/epoch-without-selection'))
         for k, p in enumerate(paths):
             v = p.value
             ok = isinstance(v, Tm) and v.op in ('call:dadi.Spectrum_mod.Spectrum.from_phi', 'call:dadi.Spectrum_mod.Spectrum.from_phi_inbreeding')
